@@ -1347,3 +1347,203 @@ def mutate_p(rng, only=None, threads=False):
             if desc is not None:
                 return s, name, owner, desc
     raise RuntimeError("no applicable mutator among %s" % names)
+
+
+# ---- further single faults
+@M.mutator("C09")
+def p_index10_out_of_scope(rng, s, b):
+    """Twelve sibling traversals; traversal 10 / 11 reads or writes a variable declared inside traversal 1
+    (scope "0.1" is a textual but not a segment-wise prefix of "0.1x")."""
+    if p_index10_accepted(rng, s, b) is None:
+        return None
+    pl = next(pl for pl in s["pipelines"] if len(pl["trav"]) >= 12)
+    t1, tk = pl["trav"][1], pl["trav"][rng.choice([10, 11])]
+    if rng.random() < 0.5 or not [d for d in t1["vars"] if not d["type"].endswith("_LIST") and d["type"] != "OBJECT"]:
+        # read the loop variable of traversal 1 into a fresh variable of its type, declared in the reading traversal
+        steps, final = replay(s, pl)
+        lv = next(x for x in final.e if x["scope"] == (1,) and x["loop"])
+        n = 950 + rng.randrange(40)
+        ty = ty_str(lv["type"])
+        if lv["type"][1] == "OBJECT":
+            return None
+        tk["vars"].append({"name": n, "type": ty, "init": "SNull"})
+        tk["apply"].append({"src": ("V", lv["name"], []), "step": None, "method": "SET", "to": n})
+        return "traversal >= 10 reads the loop variable of traversal 1"
+    d = rng.choice([d for d in t1["vars"] if not d["type"].endswith("_LIST") and d["type"] != "OBJECT"])
+    lit_src = {"STRING": "SStr", "NUMERIC": "SInt", "BOOLEAN": "SBool"}[d["type"]]
+    n = 950 + rng.randrange(40)
+    tk["vars"].append({"name": n, "type": d["type"], "init": lit_src})
+    m = "SET" if d["init"] == "SNull" else {"STRING": "CONCAT", "NUMERIC": "ADD", "BOOLEAN": "AND"}[d["type"]]
+    tk["apply"].append({"src": ("V", n, []), "step": None, "method": m, "to": d["name"]})
+    return "traversal >= 10 writes a variable declared inside traversal 1"
+
+
+def _resource(g, s, pl, ins, before, want_pt, avoid_obj):
+    """An (src, step) readable at the application ins whose stepped type has ptype want_pt and an object type other
+    than avoid_obj."""
+    ctx, own = pipe_ctx(s, pl), pl["promise"][1]
+    cands = []
+    for src, r in g.sources(before, ins[1], ctx, own):
+        for step, rt in g.steps_for(r):
+            if rt is not None and step not in (("filter",), ("sort",)) and (rt[0], rt[1]) == want_pt and rt[2] is not None and rt[2] != avoid_obj:
+                cands.append((src, step))
+    return g.rng.choice(cands) if cands else None
+
+
+@M.mutator("C08")
+def p_object_type_mismatch(rng, s, b):
+    """An object-typed variable receives objects of another object type than the attribute it is written to / than
+    it already holds."""
+    c = _pick_instr(rng, s, b, "app", lambda pl, ins, st, info: _app_state(info) is not None and info[1][1] == "OBJECT" and info[1][2] is not None
+                    and (info[2]["type"][2] is not None or (info[2]["scope"] == () and any(v == info[2]["name"] for v, _ in pl["out"]))))
+    if c is None:
+        return None
+    pl, ins, before, info, final = c
+    g = PipeGen(b, rng)
+    new = _resource(g, s, pl, ins, before, (info[1][0], info[1][1]), info[1][2])
+    if new is None:
+        return None
+    ins[2]["src"], ins[2]["step"] = new
+    return "object-typed variable receives an object of a different object type"
+
+
+@M.mutator("C08")
+def p_reorder_first_set(rng, s, b):
+    """The SET that initialises a null-initialised variable is moved behind a later operation on it (same apply list),
+    or from a traversal to the top-level apply list (which the validator reaches after all traversals)."""
+    pls = _pipes(rng, s, b)
+    rng.shuffle(pls)
+    for pl in pls:
+        steps, final = replay(s, pl)
+        apps = [(ins, info) for ins, before, info in steps if ins[0] == "app" and _app_state(info) is not None]
+        firsts = [(ins, info) for ins, info in apps if _app_state(info)[2]]
+        rng.shuffle(firsts)
+        for ins, info in firsts:
+            key = (info[2]["name"], info[2]["scope"])
+            later = [i2 for i2, f2 in apps if i2 is not ins and f2[2] is not None and (f2[2]["name"], f2[2]["scope"]) == key
+                     and apps.index((i2, f2)) > apps.index((ins, info))]
+            if not later:
+                continue
+            holder = pl["apply"] if ins[1] == () else next(i[2] for i in flatten(pl) if i[0] == "trav" and i[1] == ins[1])["apply"]
+            same = [i2 for i2 in later if i2[1] == ins[1]]
+            if same:
+                a, c2 = ins[2], same[0][2]
+                i, j = holder.index(a), holder.index(c2)
+                holder[i], holder[j] = holder[j], holder[i]
+                return "the first SET of a null-initialised variable swapped with a later operation on it"
+            if ins[1] != () and info[2]["scope"] == () and ins[2]["src"][0] == "P":
+                holder.remove(ins[2])
+                pl["apply"].append(ins[2])
+                return "the first SET of a null-initialised variable moved from a traversal to the top-level apply list"
+    return None
+
+
+@M.mutator("C08")
+def p_filter_without_item(rng, s, b):
+    c = _pick_instr(rng, s, b, "app", lambda pl, ins, st, info: ins[2]["step"] is not None and ins[2]["step"][0] == "filter")
+    if c is None:
+        return None
+    lst, i, depth = rng.choice(_cmp_positions(c[1][2]["step"][1]))
+    _, l, op, rr = lst[i]
+    fix = lambda o: ("item", True, o[2]) if o[0] == "item" else o
+    lst[i] = ("cmp", fix(l), op, fix(rr))
+    return "filter comparison in which no operand is the filter variable written as a reference object"
+
+
+@M.mutator("C09")
+def p_duplicate_sibling_source(rng, s, b):
+    cands = []
+    for pl in _pipes(rng, s, b):
+        if len(pl["trav"]) >= 1:
+            cands.append((pl, pl["trav"]))
+        for ins in flatten(pl):
+            if ins[0] == "trav" and len(ins[2]["trav"]) >= 1:
+                cands.append((pl, ins[2]["trav"]))
+    if not cands:
+        return None
+    pl, lst = rng.choice(cands)
+    t = rng.choice(lst)
+    names = {x["name"] for x in replay(s, pl)[1].e}
+    n = next(k for k in range(960, 1200) if k not in names)
+    lst.append({"src": t["src"], "as": n, "vars": [], "trav": [], "apply": []})
+    return "two sibling traversals over the same source"
+
+
+M.FORCE_ID_SPELLING.add("p_duplicate_sibling_source")
+
+
+# ----------------------------------------------------------------------------------------------- systematic families
+def _cell_base():
+    """One object type with an attribute of every kind; promise 0 (the source) and promise 1 (written by the pipeline)."""
+    attrs = [{"name": k, "kind": ("F", t)} for k, t in enumerate(S.FIELD_TYPES)]
+    attrs += [{"name": 6, "kind": ("E", ("type", 0))}, {"name": 7, "kind": ("C", ("type", 0))}]
+    op = lambda: {"incl": ("include", []), "defaults": [], "edges": [], "appends": None}
+    return {"parties": [{"id": 0, "name": 200}], "otypes": [{"id": 0, "name": 100, "attrs": attrs}],
+            "promises": [{"id": 0, "name": 300, "type": ("type", 0), "ctx": None}, {"id": 1, "name": 301, "type": ("type", 0), "ctx": None}],
+            "actions": [{"id": 0, "name": 400, "party": ("party", 0), "promise": ("promise", 0), "ctx": None, "dep": None, "op": op(), "milestones": []},
+                        {"id": 1, "name": 401, "party": ("party", 0), "promise": ("promise", 1), "ctx": None, "dep": None, "op": op(), "milestones": []}],
+            "checkpoints": [], "groups": [], "pipelines": []}
+
+
+CELL_ATTR = {"STRING": 0, "NUMERIC": 1, "BOOLEAN": 2, "STRING_LIST": 3, "NUMERIC_LIST": 4, "BOOLEAN_LIST": 5, "OBJECT": 6, "OBJECT_LIST": 7}
+
+
+def all_cells():
+    """(variable type, initial, method, source type, step): every combination; steps: none, the 9 aggregations of
+    $_item, select of each attribute kind, a filter on $_item, sort."""
+    steps = [None] + [("agg", None, op) for op in AGGS] + [("select", [k]) for k in range(8)] + [("agg", [k], "COUNT") for k in (3, 7)]
+    steps += [("filter", [("cmp", ("item", False, []), "DOES_NOT_EQUAL", ("lit", "SNull", 1))]), ("sort", [[]])]
+    out = []
+    for vt in VAR_TYPES:
+        for init in LEGAL_INIT[vt]:
+            for m in METHODS:
+                for st in VAR_TYPES:
+                    for step in steps:
+                        out.append((vt, init, m, st, step))
+    return out
+
+
+def cell_scenario(cell):
+    vt, init, m, st, step = cell
+    s = _cell_base()
+    s["pipelines"].append({"id": 0, "name": 700, "promise": ("promise", 1), "vars": [{"name": 60, "type": vt, "init": init}], "trav": [],
+                           "apply": [{"src": ("P", ("promise", 0), [CELL_ATTR[st]]), "step": step, "method": m, "to": 60}],
+                           "out": [(60, CELL_ATTR[vt])]})
+    return s
+
+
+PLACES = [(), (0,), (1,), (1, 0), (1, 0, 0), (10,), (10, 0), (11,)]
+
+
+def placement_scenario(decl_scope, use_scope, write, rng=None):
+    """Twelve sibling traversals (1 and 10 with nested traversals); a NUMERIC variable X declared in decl_scope; an
+    application in use_scope that writes X (from a NUMERIC promise path) or reads X (into a top-level variable)."""
+    s = _cell_base()
+    lists = [{"name": 100 + i, "type": "NUMERIC_LIST", "init": "SNums"} for i in range(12)]
+    nest = {"name": 120, "type": "STRING_LIST", "init": "SStrs"}
+    def trav(src, as_):
+        return {"src": src, "as": as_, "vars": [], "trav": [], "apply": []}
+    travs = [trav(("V", 100 + i, []), 130 + i) for i in range(12)]
+    travs[1]["trav"].append(trav(("V", 120, []), 150))
+    travs[1]["trav"][0]["trav"].append(trav(("P", ("promise", 0), [3]), 151))
+    travs[10]["trav"].append(trav(("V", 120, []), 152))
+    def holder(sc):
+        if sc == ():
+            return None
+        t = travs[sc[0]]
+        for i in sc[1:]:
+            t = t["trav"][i]
+        return t
+    pl = {"id": 0, "name": 700, "promise": ("promise", 1), "vars": lists + [nest, {"name": 61, "type": "NUMERIC", "init": "SInt"}],
+          "trav": travs, "apply": [], "out": [(61, 1)]}
+    x = {"name": 60, "type": "NUMERIC", "init": "SInt"}
+    (pl["vars"] if decl_scope == () else holder(decl_scope)["vars"]).append(x)
+    app = ({"src": ("P", ("promise", 0), [1]), "step": None, "method": "ADD", "to": 60} if write
+           else {"src": ("V", 60, []), "step": None, "method": "ADD", "to": 61})
+    (pl["apply"] if use_scope == () else holder(use_scope)["apply"]).append(app)
+    s["pipelines"].append(pl)
+    return s
+
+
+def all_placements():
+    return [(d, u, w) for d in PLACES for u in PLACES for w in (True, False)]
